@@ -386,6 +386,7 @@ public:
          left.reDim(num());
          right.reDim(num());
          object.reDim(num());
+         scaleExp.reSize(num());
       }
 
       left[num() - 1] = *lhsValue;
@@ -395,6 +396,8 @@ public:
          object[num() - 1] = *objValue;
       else
          object[num() - 1] = 0;
+
+      scaleExp[num() - 1] = 0;
    }
 
    /// Adds LPRowBase consisting of left hand side \p lhs, row vector \p rowVector, and right hand side \p rhs to
